@@ -135,8 +135,14 @@ def r61(ctx):
             aa[1].startswith(f"{ES}::payments_summary(self.enforcement_state, Some(") and "next_holder_commit_info" in aa[0] \
             and aa[0].endswith(", None)") and aa[1].endswith(", None)")
         ctx.ob("R6.1", ok, f"{b.name}/apply-operands", f"apply_payments({[x[:80] for x in aa]})", where=f"{b.file}:{ln}", sample=[x[:60] for x in aa])
-        R.must_pass_guard(ctx, "R6.1", b, [(bi, ln)], lambda n: n == f"{CH}::advance_holder_commitment_state",
-                          "advance_holder_commitment_state", "apply_payments", depth=0)
+        # the advance step = checked setter + secret release (the private helper advance_holder_commitment_state is
+        # transparent); its last fallible call is the release, whose Ok the caller tests
+        R.must_pass_guard(ctx, "R6.1", b, [(bi, ln)], lambda n: n == f"{CH}::release_commitment_secret",
+                          "the counter advance (set_next_holder_commit_num + release_commitment_secret)", "apply_payments", depth=0)
+        setters = {sb for sb, _, _ in R.call_blocks(fv, lambda n: n.endswith("Validator::set_next_holder_commit_num"))}
+        ctx.ob("R6.1", bool(setters) and bi not in fv.reach(0, cut_nodes=setters), f"{b.name}/apply-after-advance",
+               "apply_payments is reachable without the counter advance having run", where=f"{b.file}:{ln}",
+               sample="apply_payments dominated by Validator::set_next_holder_commit_num")
 
 
 def r62(ctx):
